@@ -438,6 +438,24 @@ def decide_harness(h, tier, prop=""):
         other = sorted({x[1][:3] for x in r["failed"] if lab.match(x[1]) and not x[1].startswith(prop + " ")})
         rec["other_props_failing"] = other
         lemma = None
+        if not rel and other and prop != "ALL":
+            # An assertion that fails ends its path, so a failing obligation of another property can mask
+            # this property's obligations that come after it.  Decide them separately: rebuild with only
+            # this property's assertions (and the built-in checks) active.
+            envf = dict(ENV)
+            envf["SV_FOCUS"] = prop
+            logf = os.path.join(LOGS, name + ".focus.log")
+            rcf, outf, wallf = run(kani_cmd(h), KANI_DIR, h["timeout"], h["mem"], logf, env=envf)
+            rf = parse_kani(outf)
+            wall += wallf
+            rec["wall_s"] = round(wall, 1)
+            rec["focused_rerun"] = rf["status"]
+            if rf["status"] == "FAILED" and not rf["unwind_fail"]:
+                rel = [x for x in rf["failed"] if x[1].startswith(prop + " ") or not lab.match(x[1])]
+            elif rf["status"] != "SUCCESSFUL" and h.get("stage2", "no") != "pub":
+                rec["verdict"] = "error" if rcf != -999 else "timeout"
+                rec["tail"] = outf[-1500:]
+                return rec
         if not rel:
             if h.get("stage2", "no") != "pub" or not other:
                 # the obligations of this property inside the harness were all discharged
@@ -532,7 +550,8 @@ def main():
     t0 = time.time()
     reg = load_registry()
     sel = [h for h in reg.values() if (prop in h["props"] or prop == "ALL")
-           and (tier == "thorough" or (h["tier"] == "quick" and prop not in h["props_thorough_only"]))]
+           and ((tier == "thorough" and h["tier"] != "pilot") or (tier == "pilot" and h["tier"] == "pilot")
+                or (h["tier"] == "quick" and prop not in h["props_thorough_only"]))]
     if only:
         global PARTIAL
         PARTIAL = True
